@@ -25,6 +25,8 @@ pub(crate) enum PhysLayer {
     Serial(tokio_serial::SerialStream),
     #[cfg(test)]
     Mock(sfio_tokio_mock_io::Mock),
+    #[cfg(dnp3_verif)]
+    Sim(Box<dyn crate::verif::io::SimPhys>),
 }
 
 impl std::fmt::Debug for PhysLayer {
@@ -38,6 +40,8 @@ impl std::fmt::Debug for PhysLayer {
             PhysLayer::Serial(_) => f.write_str("Serial"),
             #[cfg(test)]
             PhysLayer::Mock(_) => f.write_str("Mock"),
+            #[cfg(dnp3_verif)]
+            PhysLayer::Sim(_) => f.write_str("Sim"),
         }
     }
 }
@@ -67,6 +71,11 @@ impl PhysLayer {
             #[cfg(test)]
             Self::Mock(x) => {
                 let count = x.read(buffer).await?;
+                (count, PhysAddr::None)
+            }
+            #[cfg(dnp3_verif)]
+            Self::Sim(x) => {
+                let count = std::future::poll_fn(|cx| x.poll_read(cx, buffer)).await?;
                 (count, PhysAddr::None)
             }
         };
@@ -106,6 +115,8 @@ impl PhysLayer {
             Self::Serial(x) => x.write_all(data).await,
             #[cfg(test)]
             Self::Mock(x) => x.write_all(data).await,
+            #[cfg(dnp3_verif)]
+            Self::Sim(x) => std::future::poll_fn(|cx| x.poll_write(cx, data)).await,
         }
     }
 }
